@@ -155,11 +155,11 @@ End Refuse.
 
 (* ------------------------------------------------------------------ one invocation *)
 Lemma with_layers_fail c um body s :
-  KW (s_w s) -> check_inheritance (read_layer_files c (w_fs (s_w s))) = true ->
+  check_inheritance (read_layer_files c (w_fs (s_w s))) = true ->
   (forall ld, skel (ld_map ld) = skel (read_layer_files c (w_fs (s_w s))) -> body ld s = (Fail, s)) ->
   with_layers c um body s = (Fail, s).
 Proof.
-  intros HK HC Hb. unfold with_layers, bind at 1, get_fs. cbv beta iota.
+  intros HC Hb. unfold with_layers, bind at 1, get_fs. cbv beta iota.
   rewrite guard_k. destruct (base_set_up c (w_fs (s_w s))); [|reflexivity].
   unfold bind at 1. destruct (get_layers_spec c um s) as (o & E & Ho). rewrite E.
   destruct o as [ld| | | |]; try reflexivity.
@@ -170,10 +170,10 @@ Proof.
 Qed.
 
 Theorem breaking_refused e c um cmd s :
-  KW (s_w s) -> C02.forest_ok c (w_fs (s_w s)) = true -> C02.breaking c (w_fs (s_w s)) cmd = true ->
+  C02.forest_ok c (w_fs (s_w s)) = true -> C02.breaking c (w_fs (s_w s)) cmd = true ->
   run_command e c um cmd s = (Fail, s).
 Proof.
-  intros HK HF HB. unfold C02.forest_ok in HF. apply forest_ok_parts in HF as [HC _].
+  intros HF HB. unfold C02.forest_ok in HF. apply forest_ok_parts in HF as [HC _].
   unfold C02.breaking, C02.layers_of in HB.
   destruct cmd; try discriminate; cbn [run_command].
   - apply (with_layers_fail c um (fun ld => add_layer e c ld name base configfile)); auto.
